@@ -236,8 +236,8 @@ def writeToFileSeq (seq : List Seg) (p : Problem) (fs : FS) (overwrite : Bool) (
   match openW fs overwrite plan with
   | (fs0, some e) => (some e, fs0)
   | (fs1, none) =>
-    let (w, exc) := runSeq plan p { fs := fs1, nfmt := 0, nwr := 0, lineno := 1 } seq
-    match exitW w.fs exc plan with
+    let r := runSeq plan p { fs := fs1, nfmt := 0, nwr := 0, lineno := 1 } seq
+    match exitW r.1.fs r.2 plan with
     | (fs2, some e) => (some e, fs2)
     | (fs2, none) =>
       -- self._handle_warnings(warning_catch)
@@ -251,16 +251,17 @@ def writeToFile (p : Problem) (fs : FS) (overwrite : Bool) (plan : Fault) : Opti
 
 /-! ## the complete output, in closed form (what the theorems compare the destination with) -/
 
-/-- all lines of a list of objects, `none` if one of them raises or a line cannot be encoded -/
+/-- all lines of a list of objects, `none` if one of them raises -/
 def linesOf : List Fmt → Option (List String)
   | [] => some []
-  | .lines ls :: t => if ls.all encodable then (linesOf t).map (ls ++ ·) else none
+  | .lines ls :: t => (linesOf t).map (ls ++ ·)
   | .raises _ :: _ => none
 
 def segLines (p : Problem) : Seg → Option (List String)
   | .blank => some [""]
   | s => linesOf (segObjects p s)
 
+/-- every object formatted, statement by statement -/
 def renderSeq (p : Problem) : List Seg → Option (List String)
   | [] => some []
   | s :: t =>
@@ -268,8 +269,14 @@ def renderSeq (p : Problem) : List Seg → Option (List String)
     | some a, some b => some (a ++ b)
     | _, _ => none
 
-/-- the complete text of the problem: every object formatted, in the order of the source -/
-def render (p : Problem) : Option (List String) := renderSeq p MontePyVerif.Gen.WriteOrder.sequence
+/-- the complete text for a statement sequence: every object formats and every line can be encoded -/
+def complete (p : Problem) (seq : List Seg) : Option (List String) :=
+  match renderSeq p seq with
+  | some out => if out.all encodable then some out else none
+  | none => none
+
+/-- the complete text of the problem, in the order of the source -/
+def render (p : Problem) : Option (List String) := complete p MontePyVerif.Gen.WriteOrder.sequence
 
 /-- number of `format_for_mcnp_input` calls / `fh.write` calls of a fault-free run (used by the driver) -/
 def countFormats (p : Problem) (seq : List Seg) : Nat := (seq.map (fun s => (segObjects p s).length)).sum
